@@ -18,7 +18,7 @@ CACHE = os.environ.get("VERIF_CACHE") or os.path.join(VERIF, ".cache")
 OUT = os.environ.get("VERIF_OUT") or VERIF      # evidence/ and reports/ live here (the self-test redirects its mutant runs)
 MIRFACTS = os.path.join(VERIF, "engines/mirfacts/target/release/mirfacts")
 SPECSCAN_DIR = os.path.join(VERIF, "engines/specscan")
-SPECSCAN = os.path.join(SPECSCAN_DIR, "target/release/specscan")
+SPECSCAN = os.path.join(SPECSCAN_DIR, "target/release/specscan")   # legacy location; see specscan_bin()
 ENGINE_VERSION = "5"
 
 SRC_FILES = [
@@ -91,7 +91,7 @@ def _run(cmd, cwd=None, env=None, what=""):
 
 def _prune_cache(keep):
     try:
-        ents = [d for d in os.listdir(CACHE) if os.path.isdir(os.path.join(CACHE, d)) and d not in ("tmp",)]
+        ents = [d for d in os.listdir(CACHE) if os.path.isdir(os.path.join(CACHE, d)) and d not in ("tmp",) and not d.startswith("specscan-")]
     except OSError:
         return
     ents = [d for d in ents if d != keep]
@@ -178,20 +178,61 @@ def mir_facts(tag="default"):
     return _mir_cache[tag]
 
 
-def _specscan_stale():
-    """the binary is older than one of its own sources (an engine edit without a rebuild would export facts in the old format)"""
-    try:
-        bt = os.path.getmtime(SPECSCAN)
-        return any(os.path.getmtime(os.path.join(SPECSCAN_DIR, "src", f)) > bt for f in ("main.rs", "ast.rs", "canon.rs"))
-    except OSError:
-        return True
+_specscan_bin = None
+
+
+def specscan_bin():
+    """path of a specscan binary that embeds the generator (a2lmacros/src) of the tree under analysis.  Each distinct generator gets
+    its own build directory under the cache (a copy of engines/specscan plus the generator sources), so that runs on different
+    trees (the working tree, a self-test copy, a scratch worktree) never share a binary"""
+    global _specscan_bin
+    if _specscan_bin is not None and os.path.exists(_specscan_bin):
+        return _specscan_bin
+    h = hashlib.sha256()
+    own = ["Cargo.toml", "Cargo.lock", "src/main.rs", "src/ast.rs", "src/canon.rs"]
+    for f in own:
+        with open(os.path.join(SPECSCAN_DIR, f), "rb") as fh:
+            h.update(f.encode() + b"\0" + fh.read())
+    gen = []
+    gdir = os.path.join(REPO, "a2lmacros", "src")
+    for f in ["a2lspec.rs", "a2mlspec.rs", "codegenerator.rs", "util.rs"] + sorted("codegenerator/" + x for x in os.listdir(os.path.join(gdir, "codegenerator")) if x.endswith(".rs")):
+        pth = os.path.join(gdir, f)
+        if os.path.exists(pth):
+            gen.append(f)
+            with open(pth, "rb") as fh:
+                h.update(f.encode() + b"\0" + fh.read())
+    bdir = os.path.join(CACHE, "specscan-" + h.hexdigest()[:16])
+    binp = os.path.join(bdir, "target", "release", "specscan")
+    if not os.path.exists(binp):
+        with Lock("specscan-build"):
+            if not os.path.exists(binp):
+                tmp = bdir + ".tmp%d" % os.getpid()
+                shutil.rmtree(tmp, ignore_errors=True)
+                os.makedirs(os.path.join(tmp, "src", "codegenerator"))
+                for f in own:
+                    shutil.copy(os.path.join(SPECSCAN_DIR, f), os.path.join(tmp, f))
+                for f in gen:
+                    shutil.copy(os.path.join(gdir, f), os.path.join(tmp, "src", f))
+                try:
+                    _run(["cargo", "build", "--release", "--offline"], cwd=tmp, env={"CARGO_TARGET_DIR": os.path.join(tmp, "target")}, what="build specscan with the in-tree generator")
+                    shutil.rmtree(os.path.join(tmp, "target", "release", "deps"), ignore_errors=True)
+                    shutil.rmtree(os.path.join(tmp, "target", "release", "build"), ignore_errors=True)
+                    shutil.rmtree(os.path.join(tmp, "target", "release", ".fingerprint"), ignore_errors=True)
+                    shutil.rmtree(bdir, ignore_errors=True)
+                    os.replace(tmp, bdir)
+                finally:
+                    shutil.rmtree(tmp, ignore_errors=True)
+                # keep the newest few builds only
+                olds = sorted((d for d in os.listdir(CACHE) if d.startswith("specscan-") and ".tmp" not in d), key=lambda d: os.path.getmtime(os.path.join(CACHE, d)))
+                for d in olds[:-6]:
+                    shutil.rmtree(os.path.join(CACHE, d), ignore_errors=True)
+    _specscan_bin = binp
+    return binp
 
 
 def build_specscan():
-    """(re)build specscan with the in-tree generator of the current tree linked in"""
-    with Lock("specscan-build"):
-        _run(["sh", os.path.join(SPECSCAN_DIR, "sync_generator.sh")], env={"REPO": REPO}, what="sync generator")
-        _run(["cargo", "build", "--release", "--offline"], cwd=SPECSCAN_DIR, what="build specscan with the in-tree generator")
+    """kept for callers: makes sure the binary for the current tree exists"""
+    return specscan_bin()
 
 
 def ast_facts():
@@ -201,14 +242,12 @@ def ast_facts():
     if not os.path.exists(out):
         with Lock("ast"):
             if not os.path.exists(out):
-                if not os.path.exists(SPECSCAN) or _specscan_stale():
-                    build_specscan()
                 files = []
                 for sub in ("a2lfile/src", "a2lmacros/src"):
                     for p in _walk(os.path.join(REPO, sub)):
                         if p.endswith(".rs"):
                             files.append(os.path.relpath(p, REPO))
-                txt = _run([SPECSCAN, "ast"] + files, cwd=REPO, what="specscan ast")
+                txt = _run([specscan_bin(), "ast"] + files, cwd=REPO, what="specscan ast")
                 with open(out + ".tmp", "w") as fh:
                     fh.write(txt)
                 os.replace(out + ".tmp", out)
@@ -224,7 +263,7 @@ def expand_facts():
         with Lock("expand"):
             if not os.path.exists(out):
                 build_specscan()
-                p = subprocess.run([SPECSCAN, "expand", "a2lfile/src/specification_orig.rs", "a2lfile/src/specification.rs"],
+                p = subprocess.run([specscan_bin(), "expand", "a2lfile/src/specification_orig.rs", "a2lfile/src/specification.rs"],
                                    cwd=REPO, stdout=subprocess.PIPE, stderr=subprocess.PIPE, text=True)
                 if p.returncode != 0:
                     # the generator panicked on the in-tree DSL: that is a finding, not an engine failure
@@ -255,7 +294,7 @@ def a2ml_text_facts():
                 for fn in sorted(os.listdir(inv)):
                     if not fn.endswith(".rs"):
                         continue
-                    p = subprocess.run([SPECSCAN, "a2ml-text", os.path.join(inv, fn)], cwd=REPO, stdout=subprocess.PIPE, stderr=subprocess.PIPE, text=True)
+                    p = subprocess.run([specscan_bin(), "a2ml-text", os.path.join(inv, fn)], cwd=REPO, stdout=subprocess.PIPE, stderr=subprocess.PIPE, text=True)
                     if p.returncode != 0:
                         res[fn] = {"error": p.stderr[-1500:]}
                     else:
